@@ -247,8 +247,8 @@ class Segwit:
     """a segwit-form serialisation (marker 00, flag, witnesses before locktime) parses to the same fields, and the txid is
     the reversed double SHA-256 of the serialisation WITHOUT marker, flag and witness data"""
     inputs = dict(version=U32, locktime=U32, h0=HASH, pos0=U32, s0=TBytes(maxlen=252), seq0=U32, amt0=U64, os0=TBytes(maxlen=252),
-                  flag=TInt(1, 255), w0=TBytes(maxlen=252), w1=TBytes(maxlen=252))
-    note = "witness stacks of 2 items, script/witness lengths 0, 1, 107, 252"
+                  flag=TInt(1, 255), w0=TBytes(maxlen=70000), w1=TBytes(maxlen=252))
+    note = "witness stacks of 2 items, script lengths 0, 1, 107, 252; witness item lengths 0, 1, 107, 252, 253, 520, 65535, 65536"
 
     def run(version, locktime, h0, pos0, s0, seq0, amt0, os0, flag, w0, w1):
         s = BCDataStream()
@@ -274,8 +274,8 @@ class Segwit:
         return result[3] == flag and result[4] == [w0, w1]
 
     def samples():
-        for a, b in ((0, 0), (1, 107), (107, 252), (252, 1)):
-            yield dict(version=2, locktime=7, h0=b'\x11' * 32, pos0=1, s0=bytes(range(a % 256)) * 1, seq0=0xFFFFFFFE, amt0=12345,
+        for a, b in ((0, 0), (1, 107), (107, 252), (252, 1), (253, 0), (520, 33), (65535, 1), (65536, 252)):
+            yield dict(version=2, locktime=7, h0=b'\x11' * 32, pos0=1, s0=bytes(range(a % 253)), seq0=0xFFFFFFFE, amt0=12345,
                        os0=b'\x00\\x14' + b'\x22' * 20, flag=1, w0=bytes([3]) * a, w1=bytes([4]) * b)
 
 
@@ -291,7 +291,8 @@ NOT_DECIDED = [
     "Bitcoin encoding; real main-net transactions are exercised only by the run-time cases",
     "parsing of arbitrary garbage bytes (short reads make read_* return None)",
 ]
-ASSUMPTIONS = ["scripts are below 2**32 bytes; in the segwit proof scripts and witness items are at most 252 bytes"]
+ASSUMPTIONS = ["scripts are below 2**32 bytes; in the segwit proof scripts are at most 252 bytes, the first witness item at most 70000 bytes "
+               "(all three compact-size forms that fit a standard witness), the second at most 252"]
 
 
 @proof("C05", "txid-after-mutation")
